@@ -13,7 +13,7 @@ BOUNDS = dict(quick='n <= 5 points (2 concrete spacing patterns), all heights sy
 ASSUMPTIONS = ['exact real arithmetic (T1)', 'non-constant y (x is strictly increasing)', 'tx >= 1/16 so that ceil(w/(2 tx)) <= 8 (the integer case split is bounded)',
                'the spec is executed on the same symbolic values (forks like ordinary code): candidate segments, ceil(w/2tx) insertions spaced by floor((right-left)/count) indices, '
                'union, unique, sort, running-minimum filter']
-CONFIG = dict(quick=dict(budget_s=170, case_wall_s=120, max_paths=20000), thorough=dict(budget_s=900, case_wall_s=600, max_paths=300000))
+CONFIG = dict(quick=dict(budget_s=170, case_wall_s=120, max_paths=20000), thorough=dict(max_cases=1500, budget_s=900, case_wall_s=600, max_paths=300000))
 
 
 def cases(tier, seed):
